@@ -383,7 +383,8 @@ def run_unit(unit, tier, seed):
             res, failures, undecided = res2, f2, u2
     # canaries must fail
     failed_canaries = set(f.fn for f in failures if f.canary)
-    vacuous = [c for c in canaries if c not in failed_canaries]
+    verified_something = bool(res["out"]) and not any(u.startswith("front-end/unsupported") or u.startswith("verus produced no JSON") for u in undecided)
+    vacuous = [c for c in canaries if c not in failed_canaries] if verified_something else []
     real_failures = [f for f in failures if not f.canary]
     crate = name
     obl = count_obligations(res["logdir"], crate)
